@@ -28,6 +28,9 @@ import numpy
 
 from . import c09_exact as X
 
+import collections
+OBS = collections.Counter()      # observations made inside model functions (folded into the worker's Result by the caller)
+
 SPACE_NAMES = [chr(ord('A') + i) for i in range(26) if chr(ord('A') + i) != 'X'] + ['S%d' % i for i in range(40)]
 HARDCAP = 6000
 
@@ -349,6 +352,9 @@ def m_take(m, I):
         # a union hands the request to its summands: elements of the first summand come first
         a, b = m.parts
         mask = I < a.nelems
+        OBS['A/union_take_elements'] += 1
+        if len(I) > 1 and (numpy.diff(mask.astype(int)) > 0).any():
+            OBS['A/union_take_elements_regrouped'] += 1     # request interleaves the summands: result is grouped by summand
         return m_add(m_take(a, I[mask]), m_take(b, I[~mask] - a.nelems))
     order = numpy.concatenate([m.elems[i] for i in I])
     sizes = [len(m.elems[i]) for i in I]
@@ -546,6 +552,8 @@ class Gen:
             return [k, self.variant(e[1], cap), int(rng.integers(0, 2**31))] + e[3:]
         if k == 'rename':
             return ['rename', self.variant(e[1], cap), e[2]]
+        if k == 'addempty':
+            return self.variant(e[1], cap)
         if k == 'locate':
             return ['locate', e[1], e[2], e[3], int(rng.integers(0, 2**31)), int(rng.integers(1, 30)), e[6]]
         if rng.random() < .5:
@@ -562,6 +570,8 @@ class Gen:
             return ['mul', self.expr(depth - 1, sub), self.expr(depth - 1, sub)]
         if op == 'add':
             a = self.expr(depth - 1, cap // 2)
+            if rng.random() < .08:
+                return ['addempty', a, int(rng.integers(0, 2))]       # Sample.empty as the neutral element of '+'
             return ['add', a, self.variant(a, cap // 2)]
         if op == 'take':
             return ['take', self.expr(depth - 1, cap), int(rng.integers(0, 2**31)), str(rng.choice(['sorted', 'any', 'repeat'], p=[.45, .45, .1]))]
@@ -599,7 +609,7 @@ def skeleton(e):
         return [k]
     if k in ('take',):
         return [k, skeleton(e[1]), e[3]]
-    if k in ('subset', 'rename'):
+    if k in ('subset', 'rename', 'addempty'):
         return [k, skeleton(e[1])]
     return [k] + [skeleton(c) for c in e[1:]]
 
@@ -611,7 +621,7 @@ def depth_of(e):
     return 1 + max(depth_of(c) for c in e[1:] if isinstance(c, list) and c and isinstance(c[0], str) and c[0] in KINDS)
 
 
-KINDS = {'new', 'custom', 'topomul', 'topotake', 'locate', 'fitline', 'mul', 'add', 'take', 'subset', 'zip', 'rename'}
+KINDS = {'new', 'custom', 'topomul', 'topotake', 'locate', 'fitline', 'mul', 'add', 'addempty', 'take', 'subset', 'zip', 'rename'}
 
 
 def kinds_of(e, acc=None):
@@ -825,6 +835,10 @@ class Exec:
             if any(ma.tip[s] != mb.tip[s] for s in ma.spaces):
                 raise Skip('mixed dimensions in a union')
             return self._call('add', lambda: ra + rb), m_add(ma, mb)
+        if k == 'addempty':
+            ra, ma = self.run(e[1])
+            empty = Sample.empty(ra.spaces, ra.ndims)
+            return self._call('add', (lambda: ra + empty) if e[2] else (lambda: empty + ra)), ma
         if k == 'take':
             ra, ma = self.run(e[1])
             r = numpy.random.default_rng(e[2])
@@ -1076,6 +1090,24 @@ def check_values(ex, real, model, rng, tol):
             probs.append(('eval order/value', f'eval({desc}) differs from the model table: {det}'))
         elif verdict == tol.MARGINAL:
             res.count('A/marginal')
+    # model-free cross-check: values at positions getindex(i) are the values of the one-element sample take_elements([i])
+    if model.nelems and rng.random() < .5:
+        i = int(rng.integers(0, model.nelems))
+        try:
+            with warnings.catch_warnings():
+                warnings.simplefilter('ignore')
+                sub = real.take_elements(numpy.array([i]))
+                subvals = sub.eval(fs[:3])
+            gi = numpy.asarray(real.getindex(i))
+            res.count('A/element_crosschecks')
+            for (desc, f, E, scale), v, sv in zip(funcs, vals, subvals):
+                verdict, det = tol.compare(numpy.asarray(sv), numpy.asarray(v)[gi], scale=scale)
+                if verdict == tol.VIOLATION:
+                    probs.append(('eval[getindex(i)] == eval on take_elements([i])', f'element {i}, {desc}: {det}'))
+        except Exception as e:
+            if not is_refusal(e):
+                raise
+            res.count('A/element_crosscheck_rejected')
     if model.W is None:
         res.count('A/no_weights_integration_skipped')
         return probs, True
@@ -1148,7 +1180,7 @@ def check_topology_exactness(recipe, ops_list, degree, res, tol):
     nd = base.ndims
     monos = X.monomials_total(nd, degree)
     x = base.geom
-    f = numpy.stack([numpy.prod([x[d]**int(k) for d, k in enumerate(a)]) for a in monos]) * function.J(x)
+    Jx = function.J(x)
     exact = numpy.array([physical_exact(base, a) for a in monos])
     scale = max(1., float(numpy.abs(exact).max()))
     for ops in ops_list:
@@ -1177,7 +1209,14 @@ def check_topology_exactness(recipe, ops_list, degree, res, tol):
             with warnings.catch_warnings():
                 warnings.simplefilter('ignore')
                 smp = T.sample('gauss', degree)
-                total = total + smp.integrate(f)
+                # polynomial moments from the sample's own points, weights and Jacobian (numpy); the integrate path is
+                # exercised with the measure itself
+                xv, Jv = smp.eval([x, Jx])
+                W = real_weights(smp, res)
+                total = total + X.moments(xv, W * Jv, monos)
+                vol = float(smp.integrate(Jx))
+                if abs(vol - float(W @ Jv)) > 1e-9 * max(1., abs(vol)):
+                    probs.append(('integrate == sum w eval(f) (sample weights)', f'{recipe["kind"]} ops={[o[0] for o in ops]} gauss{degree}: integrate(J)={vol!r} but sum w J={float(W @ Jv)!r}'))
         res.count('B/topology_integrals')
         res.count('B/topology_triples', len(monos))
         res.add('B/topology_kinds', recipe['kind'] + ':' + '/'.join(o[0] for o in ops))
